@@ -117,7 +117,37 @@ class ModuleEnv(object):
       return self.consts[name]
     if name in self.ip.builtins:
       return self.ip.builtins[name]
+    std = self.stdlib_import(name)
+    if std is not None:
+      return std
     raise EngineError("unbound global %r in module %s (bind it in the harness)" % (name, self.name))
+
+  def stdlib_import(self, name):
+    """`from math import isnan, isinf, isfinite` at module level: float classification predicates,
+    dispatched to the value model (py_isnan / py_isinf) or decided on plain numbers."""
+    mi = self.ip.index.module(self.name)
+    for node in mi.tree.body:
+      if isinstance(node, ast.ImportFrom) and node.module == 'math':
+        for a in node.names:
+          if (a.asname or a.name) == name and a.name in ('isnan', 'isinf', 'isfinite'):
+            return Builtin('math.' + a.name, _math_pred(a.name))
+    return None
+
+
+def _math_pred(which):
+  def call(ip, args, kw):
+    import math
+    x = args[0]
+    if isinstance(x, Model) and hasattr(x, 'py_' + which):
+      return getattr(x, 'py_' + which)(ip)
+    if isinstance(x, Inf):
+      return which == 'isinf'
+    if isinstance(x, (int, float)) and not isinstance(x, bool):
+      return getattr(math, which)(x)
+    if is_z3(x) and (z3.is_int(x) or z3.is_real(x)):
+      return which == 'isfinite'       # z3 numbers are finite reals / integers
+    raise EngineError("math.%s(%r)" % (which, x))
+  return call
 
 
 class Spec(object):
@@ -483,6 +513,11 @@ class Interp(object):
       h = self.ext.get(('truth', v.sort().name()))
       if h is not None:
         return h(self, v)
+      if v.sort().kind() == z3.Z3_UNINTERPRETED_SORT:
+        # an opaque value (e.g. a datapoint value): its truthiness is some function of the value
+        return z3.Function('truthy/' + v.sort().name(), v.sort(), z3.BoolSort())(v)
+      if z3.is_seq(v):
+        return z3.Length(v) > 0
       raise EngineError("truthiness of term of sort %s" % v.sort())
     if isinstance(v, Model):
       if hasattr(v, 'py___bool__'):
